@@ -294,3 +294,30 @@ def check_C01():
                    "read side: v2 BlockReader (seekable and plain source), v2 Reader (DataReader/IndexReader/Roots), root-module CarReader and LoadCar, internal CARv1 reader and loader must return the "
                    "specification's roots and (CID, bytes) sequence; write side (store-replay with payload comparison, see counters): every writer's payload equals the reference encoding",
                    "complete enumeration of the bounded archive space x all sequential readers")
+
+
+def check_C11():
+    n = 3 if tier() == "quick" else 4
+    vh = build_harness()
+    check_alphabet(vh)
+    model = run_tlc("MCIndex", "Index_%d.cfg" % n, timeout=1800)
+    tlc_must_pass(model, "Index.tla order-independence invariants")
+    em = run_tlc("MCIndex", "Index_%d_emit.cfg" % n, timeout=1800)
+    tlc_must_pass(em, "Index.tla emitter")
+    rc, rep = harness_run(vh, ["index-replay", em["out"], "@REPORT"])
+    # flatten vs regenerate on every finished file of the layout graph
+    lay = "Store_lay" if tier() == "quick" else "Store_lay3"
+    emit = run_tlc("MCStore", lay + "_emit.cfg", timeout=1500)
+    tlc_must_pass(emit, "Store.tla emitter")
+    rc2, srep = harness_run(vh, ["store-replay", emit["out"], "@REPORT", "depth=3", "tail=0", "cover=1", "c05=1", "ops=put,putmany,finalize", "kinds=blockstore,storage"])
+    sem = run_tlc("MCStore", "Store_sem_emit.cfg", timeout=1500)
+    tlc_must_pass(sem, "Store.tla emitter")
+    rc3, srep2 = harness_run(vh, ["store-replay", sem["out"], "@REPORT", "depth=2", "tail=0", "cover=1", "c05=1", "ops=put,putmany,finalize", "kinds=blockstore"])
+    viols = (rep["violations"] or []) + [v for v in (srep["violations"] or []) + (srep2["violations"] or []) if "flatten-vs-regenerate" in v["class"]]
+    cov = merge_cov(model, em, rep, {
+        "rule": "every load order (sequence, so all permutations and repetitions) of <= %d records over a 10-record alphabet (3 hash codes, digest widths 0/20/32/64, equal digests under "
+                "different codes and offsets, offsets 0, 1, 2^32, 2^63-1, 2^63) x both codecs: 8 serializations compared, reported length = bytes written = SerialLen, bucket and entry order = "
+                "Canon, ReadFrom round trip, GetAll/GetFirst for 10 query keys on the loaded and the read-back index, ForEach multiset; flatten-vs-regenerate on %d finished files of the Store graphs"
+                % (n, srep["counters"].get("finalized_files_checked", 0) + srep2["counters"].get("finalized_files_checked", 0)),
+        "exhaustive": True, "explanation": "TLC checks OrderIndependent / LookupsAreMultisetFunctions over all permutations of every reachable load sequence"})
+    finish("C11", "model_checking", cov, viols, inconclusive=rep.get("inconclusive") or None)
